@@ -227,21 +227,36 @@ class C04(runner.Check):
                 'TM.C04N_usable_afterwards', 'TM.C04N_sameMachine_step')
     manifest = dict(
         level='proof', design='DESIGN.md 4/C04',
-        text="Lean 4 theorems C04_step / C04_history: for every flat configuration, every history and EVERY script without re-entrant commands (any callback, condition, on_exception handler or finalize callback may raise any exception at any invocation) the engine model's trace is accepted by the containment acceptor (segment cut after the first raising call, handlers iff registered, finalize always with its own exception swallowed, outcome raised/normal, state = source or destination by failing stage) and the machine is left idle. Tied to /repo by a crash sweep over every callback position of recorded traces: on the eight synchronous classes (flat configurations) by model equality, the same compiled acceptor on implementation traces and a survivor-vs-fresh continuation differential (on another thread for locked classes); on nested/parallel configurations and the async classes (HierarchicalMachine, LockedHierarchicalMachine, AsyncMachine, HierarchicalAsyncMachine) by a containment oracle stating the clauses directly (nothing of a later stage, finalize exactly once, handlers iff registered, outcome, state frozen from the failing stage on, source state at or before the exit callbacks) plus the same survivor-vs-fresh differential; exception kinds include Exception, BaseException and builtin types (KeyError, IndexError, OSError, ...).",
-        note="Trusted: Lean kernel, Model/Core.lean tied by trace equality, acceptor Model/Spec/C04.lean, harness recorders. Partial: the hierarchical and async engines have no Lean model in this check (Python oracle + differential, sampling); lock release on real threads is decided by the thread probe here and by C06; re-entrant commands combined with failures are covered by C05's theorem (queue discarded).",
+        text="Lean 4 theorems C04_step / C04_history: for every flat configuration, every history and EVERY script without re-entrant commands (any callback, condition, on_exception handler or finalize callback may raise any exception at any invocation) the engine model's trace is accepted by the containment acceptor (segment cut after the first raising call, handlers iff registered, finalize always with its own exception swallowed, outcome raised/normal, state = source or destination by failing stage) and the machine is left idle. HIERARCHICAL engine (Props/C04N.lean, model Model/Nested*.lean written after nesting.py, now with the on_final stage): C04N_step / C04N_history / C04N_monitor_accepts_model - for every state tree (compound, parallel, final flags), global and local transitions, queued or not, EVERY script (any callback raises anything anywhere, callbacks may trigger further events: immediately on unqueued machines, through the queue on queued ones) and every history the trace is accepted by the nested containment acceptor Model/Spec/C04N.lean (an event = several transitions, one per region / scope, each a sequence of stages incl. the exit chain and enter chain of every state and on_final lists; after a raise inside transition k no later stage of k and no later transition runs; handlers iff registered; finalize exactly once, never replacing the outcome; every callback is shown the tracked configuration, which moves only at _update_model); C04N_state_of_failure (trace of a failed transition = pre-update callbacks ++ post-update callbacks; configuration unchanged iff nothing after _update_model ran, else the resolved destination), C04N_conf_reach, C04N_conf_frozen; C04N_usable_afterwards / C04N_sameMachine_step (after ANY trigger call on an idle machine the queue is empty and the state is the same machine as a fresh one placed in its configuration; that relation is preserved by every call with identical outcomes and traces, so every further history runs identically). Tied to /repo by crash sweeps over every callback position of recorded traces: on the eight synchronous classes (flat configurations) by model equality, the compiled acceptor on implementation traces and a survivor-vs-fresh continuation differential; stream nested-model: generated hierarchical machines (parallel / parallel-in-parallel, local transitions, final states, queued and unqueued, re-entrant triggers) on HierarchicalMachine + the three other synchronous hierarchical classes by trace equality with the Lean engine model, the compiled nested acceptor C04N.checkTrace on the implementation's traces and the survivor-vs-fresh differential; the async classes and the older nested oracle stream by a containment oracle stating the clauses directly (plus, for its hierarchical synchronous setups, the same compiled nested acceptor per model); exception kinds include Exception, BaseException and builtin types (KeyError, IndexError, OSError, ...).",
+        note="Trusted: Lean kernel, Model/Core.lean and Model/Tree+Nested+NestedDispatch.lean tied by trace equality, acceptors Model/Spec/C04.lean and Model/Spec/C04N.lean, harness recorders. The acceptors compute which transitions are attempted with the engine model's pure functions (candidates, resolve_order, _resolve_transition, _final_check) and read callback outcomes off the trace. Partial: the async engines have no Lean model in this check (Python oracle + differential, sampling); C04N_state_of_failure / conf_reach / conf_frozen assume callbacks that do not trigger events (a re-entrant event moves the configuration itself); NestedState._scope and the machine's scope stack are not part of the engine model - the stream compares re-entrant triggers from enter/exit callbacks and from callbacks inside nested scopes strictly, which is how the two defects fixed by 4b06f60 / 84867c8 were found (regression cases in corpus/C04); lock release on real threads is decided by the thread probe here and by C06.",
         technique="Lean 4 proof (structural simulation, all raising scripts) + crash-position sweep differential + verified trace monitor")
     rule = ('base = random flat configuration x history of 1-4 triggers (no failure); variants = every (quick: up to 8 '
             'sampled) callback position of the clean trace as the crash point x {Exception, BaseException} x {with, '
             'without on_exception handlers} (+ second fault in handler / finalize with p=0.2) x machine classes; '
-            'non-trivial/distinct = distinct (variant encoding, class) — every variant raises')
+            'stream nested-model: base = random hierarchical machine (<= 10 states, depth <= 3, parallel states, local '
+            'transitions, final flags + on_final lists, queued p=0.35, callbacks that trigger events) x history of 1-4 '
+            'triggers, variants = every (quick: up to 5 sampled, enter/exit/on_final/after preferred) callback position '
+            'of the clean HierarchicalMachine trace as the crash point, same exception kinds / handlers / second faults, '
+            'run on HierarchicalMachine and one (thorough: always) of the three other synchronous hierarchical classes, '
+            'followed by a 3-event continuation; non-trivial/distinct = distinct (variant encoding, class) — every '
+            'variant raises')
     trusted = ('hand-written model lean/Model/Core.lean tied to /repo by trace equality on every variant',
-               'acceptor lean/Model/Spec/C04.lean read as the containment clause',
-               'harness/flat.py recorders; survivor-vs-fresh differential implemented in harness/props/c04.py')
+               'hand-written model of nesting.py (lean/Model/Tree.lean, Nested.lean, NestedDispatch.lean) tied to /repo by '
+               'trace equality + state value after every call on every variant of stream nested-model',
+               'acceptors lean/Model/Spec/C04.lean and lean/Model/Spec/C04N.lean read as the containment clause',
+               'harness/flat.py and harness/nested.py recorders; survivor-vs-fresh differentials implemented in '
+               'harness/props/c04.py')
 
     def assumptions(self):
-        return ['theorems assume scripts without re-entrant API calls (C05 covers those) and registered states',
-                'the sweep covers the synchronous classes on flat configurations; nested scopes and async classes are '
-                'exercised by other checks (see manifest note)']
+        return ['flat theorems assume scripts without re-entrant API calls (C05 covers those) and registered states; the '
+                'hierarchical theorems C04N_step / C04N_history / C04N_usable_afterwards hold for every script, re-entrant '
+                'trigger commands included; C04N_state_of_failure / C04N_conf_reach / C04N_conf_frozen assume callbacks '
+                'that do not trigger events',
+                'hierarchical machines: one model, string states, no name collisions between levels in the generated '
+                'trees (Enum states and shared state objects are C02 / C18 business); the monitor runs the acceptor with '
+                'the bounds (queue items per call, nesting depth) of the model run of the same input',
+                'the async classes are judged by the Python containment oracle and the survivor-vs-fresh differential '
+                'only (no Lean model of the async engines in this check)']
 
     def explore(self, tier, seed):
         nch, per = (16, 14) if tier == "quick" else (64, 10)
@@ -712,6 +727,7 @@ class NMRun(nested.NestedRun):
         self.depth = 0
         self.scope_live = []
         self.scoped_reentry = 0
+        self.residue = []           # what a top-level call left behind: naming scopes, scope stack, queue content
         nested.NestedRun.__init__(self, *a, **kw)
 
     def _scoped_states(self):
@@ -738,6 +754,24 @@ class NMRun(nested.NestedRun):
             return nested.NestedRun.trigger(self, ev)
         finally:
             self.depth -= 1
+            if self.depth == 0:
+                self._check_residue()
+
+    def _check_residue(self):
+        """the machine is idle again: "nothing - scope, queue content, state names - is left behind" read directly"""
+        m = self.machine
+        if getattr(m, '_stack', None) or getattr(m, 'prefix_path', None):
+            self.residue.append(('scope-stack', repr(getattr(m, 'prefix_path', None))))
+        if len(getattr(m, '_transition_queue', ())):
+            self.residue.append(('queue-content', len(m._transition_queue)))
+
+        def rec(states):
+            for name, st in states.items():
+                if st.name != name:
+                    self.residue.append(('state-name', '%s is called %s' % (name, st.name)))
+                rec(st.states)
+        if not getattr(m, '_stack', None):
+            rec(m.states)
 
 
 def nm_run(d, cls, cont=None, place=None):
@@ -799,6 +833,11 @@ def nm_judge(case, d, hm, err, other, oerr, fresh, ferr, answers):
         return out
     if hm.bad:
         fail('monitor', 'nested-recorder:' + hm.bad[0][0], {'bad': hm.bad[:4]}, sig='C04.nested.' + hm.bad[0][0])
+    for r, c in ((hm, None), (other, case.get('cls'))):
+        if r is not None and r.residue:
+            fail('monitor', 'nested-left-behind:' + r.residue[0][0], {'class': c or 'HierarchicalMachine', 'left_behind': r.residue[:4],
+                                                                     'impl_trace': [common.show_item(i) for i in r.items[:80]]},
+                 sig='C04.nested.left-behind', cls=c)
     m = nm_parse(answers[0])
     if m is not None:
         items, vals, _q = m
@@ -1078,7 +1117,7 @@ def _explore_nm(self, tier, seed):
         ex.evaluations += 1
         ex.traces_validated += 1
         ex.failures += fs
-    nch, per = (16, 10) if tier == 'quick' else (32, 32)
+    nch, per = (16, 10) if tier == 'quick' else (32, 24)
     part_ex = Exploration()
     for part in runner.parallel(nm_chunk, [(seed, i, per, tier) for i in range(nch)]):
         part_ex.merge(part)
